@@ -1,6 +1,7 @@
 import TTV.Model.Spinner
 import TTV.Spec.C15
 import TTV.Lemmas.Reactor
+import TTV.Generated.SpinnerSkel
 /-! # C15 — `Spinner.run` returns the function's own result within the timeout and restores the process
 
 All statements are about the model `TTV.Spinner` (`Model/Reactor.lean`, `Model/Spinner.lean`) and hold for
@@ -1642,7 +1643,8 @@ theorem runStep_rejected (sc : Scen) (w0 : W) (hidle : Idle w0) (hj : w0.sp.junk
 /-- the state after the `finally` ladder of `run`, before `_clean` -/
 def restored (sc : Scen) (w0 : W) : W :=
   let w := spinPhase sc (afterPre sc w0)
-  { w with running := false, stopPatched := false, sigs := restoreFrom 0 w.sp.saved w.sigs, sp := { w.sp with saved := [] } }
+  { w with running := false, stopPatched := false, sigs := restoreFrom 0 w.sp.saved w.sigs,
+           sp := { w.sp with saved := [], spinning := false } }
 
 /-- … and after the obligatory iterations -/
 def cleaned (sc : Scen) (w0 : W) : W := iterations sc sc.oblig (restored sc w0)
@@ -2619,6 +2621,104 @@ theorem C15_own_result_despite_late_firing (T v vOld k : Nat) (hT : 2 < T) (w0 :
   have h1 : ¬ T < 2 := by omega
   have h2 : ¬ T ≤ 2 := by omega
   simp [expected, syncRes, syncFire, syncStop, delayed, winner, kindOf, noStopBefore, laterKind, nowAct, List.filterMap_cons, hT, h1, h2]
+
+/-! # The translator tie: the model is the interpretation of the source of `_spinner.py`
+
+`harness/pyspinner2lean.py` re-reads the source on every run and emits `TTV/Generated/SpinnerSkel.lean`; each theorem first
+checks that what was found IS the reference term (`by decide` - any change of what is done or in which order breaks it) and
+then that the interpretation of that term is the hand-written model. -/
+
+section src
+open TTV.SpinnerSkel
+
+/-- `_got_success` / `_got_failure` (cancel the timeout FIRST, then store) followed by `_stop_reactor`, as found in the source,
+are `Reactor.deliver` -/
+theorem C15_src_callbacks (r : Res) (w : W) :
+    deliverI Generated.SpinnerSkel.gotSuccess Generated.SpinnerSkel.gotFailure Generated.SpinnerSkel.stopReactor r w = deliver r w := by
+  have e1 : Generated.SpinnerSkel.gotSuccess = refGotSuccess := by decide
+  have e2 : Generated.SpinnerSkel.gotFailure = refGotFailure := by decide
+  have e3 : Generated.SpinnerSkel.stopReactor = refStopReactor := by decide
+  rw [e1, e2, e3]
+  unfold deliverI deliver stopReactor
+  cases htc : w.sp.tcall <;> cases r <;> simp [cbI, refGotSuccess, refGotFailure, refStopReactor, htc] <;> split <;> rfl
+
+/-- `_stop_reactor` as found in the source is `Reactor.stopReactor` -/
+theorem C15_src_stop_reactor (r : Res) (w : W) : cbI Generated.SpinnerSkel.stopReactor 0 Generated.SpinnerSkel.stopReactor r w = stopReactor w := by
+  have e3 : Generated.SpinnerSkel.stopReactor = refStopReactor := by decide
+  rw [e3]
+  unfold stopReactor
+  simp only [cbI, refStopReactor]
+
+/-- `_timed_out` as found in the source is `Reactor.execTimeout` -/
+theorem C15_src_timed_out (w : W) :
+    timedOutI Generated.SpinnerSkel.timedOut Generated.SpinnerSkel.stopReactor w = execTimeout w := by
+  have e1 : Generated.SpinnerSkel.timedOut = refTimedOut := by decide
+  have e3 : Generated.SpinnerSkel.stopReactor = refStopReactor := by decide
+  rw [e1, e3]
+  unfold timedOutI execTimeout stopReactor
+  simp only [cbI, refTimedOut, refStopReactor]
+
+/-- `_get_result` as found in the source is `Reactor.getResult` -/
+theorem C15_src_get_result (sp : Reactor.Spinner) : getResultI Generated.SpinnerSkel.getResult sp = getResult sp := by
+  have e : Generated.SpinnerSkel.getResult = refGetResult := by decide
+  rw [e]
+  unfold getResult
+  cases hf : sp.failure <;> cases hs : sp.success <;> simp [getResultI, refGetResult, hf, hs]
+
+/-- `_clean` as found in the source (no obligatory iterations for the plain Spinner) cancels / removes what is left,
+records it as junk after the junk already there, and leaves the reactor empty -/
+theorem C15_src_clean (w : W) :
+    Generated.SpinnerSkel.obligatoryIterations = 0 ∧
+    (cleanI id Generated.SpinnerSkel.clean (w, [])).1 = { w with calls := [], sels := [], sp := { w.sp with junk := w.sp.junk ++ leftovers w } } ∧
+    (cleanI id Generated.SpinnerSkel.clean (w, [])).2 = leftovers w := by
+  have e : Generated.SpinnerSkel.clean = refClean := by decide
+  rw [e]
+  exact ⟨by decide, rfl, rfl⟩
+
+/-- the helpers that are recognised as a whole -/
+theorem C15_src_shapes :
+    Generated.SpinnerSkel.saveSignals = .assignsFreshListOfAvailablePreserved ∧
+    Generated.SpinnerSkel.restoreSignals = .reinstallsEachThenEmptiesList ∧
+    Generated.SpinnerSkel.notReentrant = refNotReentrant ∧ Generated.SpinnerSkel.runIsNotReentrant = true ∧
+    Generated.SpinnerSkel.trapUnhandledErrors = refTrap ∧ Generated.SpinnerSkel.fakeStop = refFakeStop ∧
+    Generated.SpinnerSkel.cancelTimeoutIsGuardedCancel = true := by decide
+
+/-- **`Spinner.run` as found in the source is the model's `runStep`**: the interpretation of the skeleton (with the `run_function`,
+`_get_result` and `_clean` found) from the state in which `run` is called yields the model's final state (up to what the harness
+cancels after a refusal) and result; nothing in it is beyond the model (`bad = false`): the callbacks are guarded by a run token that
+is set over before the result is read. -/
+theorem C15_src_run (sc : Scen) (w0 : W) :
+    let s := interp sc Generated.SpinnerSkel.runFunction Generated.SpinnerSkel.getResult Generated.SpinnerSkel.clean
+      Generated.SpinnerSkel.run { w := enter sc w0 }
+    (runStep sc w0).1 = (if s.raised.isSome then { s.w with calls := [] } else s.w) ∧
+    (runStep sc w0).2.result = (s.raised.getD (s.result.getD .noresult)) ∧ s.bad = false := by
+  have e1 : Generated.SpinnerSkel.run = refRun := by decide
+  have e2 : Generated.SpinnerSkel.runFunction = refRunFunction := by decide
+  have e3 : Generated.SpinnerSkel.getResult = refGetResult := by decide
+  have e4 : Generated.SpinnerSkel.clean = refClean := by decide
+  rw [e1, e2, e3, e4]
+  have hgr : ∀ sp, getResultI refGetResult sp = getResult sp := by
+    intro sp; unfold getResult
+    cases hf : sp.failure <;> cases hs : sp.success <;> simp [getResultI, refGetResult, hf, hs]
+  simp only [runStep, enter]
+  split
+  · rename_i hj
+    have hj' : (schedPre 0 sc.pre { w0 with t0 := w0.now, events := [], u := {} }).sp.junk.isEmpty = false := by simpa using hj
+    simp [interp, stepI, refRun, hj']
+  · rename_i hj
+    have hj' : (schedPre 0 sc.pre { w0 with t0 := w0.now, events := [], u := {} }).sp.junk.isEmpty = true := by simpa using hj
+    split
+    · rename_i hb
+      simp [interp, stepI, refRun, hj', hb, saveSignals]
+    · rename_i hb
+      have hb' : sc.bad = false := by simpa using hb
+      simp only [interp, stepI, refRun, hj', hb', saveSignals, spinPhase, hgr, cleanI, refClean, refRunFunction, Option.isSome_none,
+        Bool.false_eq_true, if_false, if_true, Bool.true_and, Bool.and_self, beq_self_eq_true, Bool.not_true, Bool.or_false, Bool.not_false,
+        Option.getD_some, Option.getD_none, id, leftovers, List.nil_append]
+      repeat' constructor
+      all_goals first | rfl | trivial
+
+end src
 
 /-! ## non-vacuity: concrete histories (evaluated by the kernel) -/
 
